@@ -234,3 +234,23 @@ Theorem C04_code_tie_model_post_file_interprets_the_events :
             end).
 Proof. intros e m s window H1 H2 H3 H4 H5 H6. exact (storagepay_post_file_is_the_interpretation e m s H1 H2 H3 H4 H5 H6 window). Qed.
 Print Assumptions C04_code_tie_model_post_file_interprets_the_events.
+
+From JK Require Import Proofs.GoTieBuy.
+
+(* the whole BuyStorage handler (with validateBuy and UpgradeStorage), generated from the current source: 25 reads,
+   8 effects.  It computes the closed form [buy_spec]/[buy_tail] of Proofs/GoTieBuy.v, written with the constants and
+   the price function of Model/StoragePay.v: refusals before any effect; the base price (storage cost, or the upgrade
+   price of a running plan); the referral discount only for a referrer that resolves and is not the creator's account;
+   the creator charged that amount; the plan written; the providers' share put into the gauge; the liquidity share to
+   the liquidity account; the referral commission to the referrer -- or to the stakers without one -- each share the
+   truncated product of the amount charged with its ratio, in this order *)
+Theorem C04_code_tie_BuyStorage :
+  forall for_resolves days bytes not_ujkl for_ok acc_exists found plan_used plan_avail plan_end now ppt jkl
+         ref_resolves creator_ok ref_is_creator polr refc ok_charge gauge_acc_ok ok_fund pol_acc_ok ok_pol ok_ref ok_fees,
+    int64_min <= bytes <= int64_max -> int64_min <= plan_avail <= int64_max ->
+    gen_BuyStorage for_resolves days bytes not_ujkl for_ok acc_exists found plan_used plan_avail plan_end now ppt jkl
+                   ref_resolves creator_ok ref_is_creator polr refc ok_charge gauge_acc_ok ok_fund pol_acc_ok ok_pol ok_ref ok_fees
+    = buy_spec for_resolves days bytes not_ujkl for_ok acc_exists found plan_used plan_avail plan_end now ppt jkl
+               ref_resolves creator_ok ref_is_creator polr refc ok_charge gauge_acc_ok ok_fund pol_acc_ok ok_pol ok_ref ok_fees.
+Proof. exact gen_BuyStorage_spec. Qed.
+Print Assumptions C04_code_tie_BuyStorage.
